@@ -398,7 +398,7 @@ func TestC14(t *testing.T) {
 			twin, _ := cpus()
 			var cells [1024]int64
 			var backward, forward int64
-			r.Rapid("trace", rig.Pick(8000, 60000), func(t *rapid.T) {
+			r.Rapid("trace", rig.Pick(24000, 100000), func(t *rapid.T) {
 				d := rig.RapidDrawer{T: t}
 				syn := rig.NewSynth(d, nil)
 				op0 := byte(d.U32("op0-pre"))
